@@ -1862,6 +1862,21 @@ class AdvancedTag(object):
                 return found
         return None
 
+    def getElementsByTagName(self, tagName):
+        '''
+            getElementsByTagName - Search children of this tag for tags with a given tag name
+
+            @param tagName <lowercase str> - A lowercase string of the tag name.
+
+            @return - TagCollection of matching elements
+        '''
+        elements = []
+        for child in self.children:
+            if child.tagName == tagName:
+                elements.append(child)
+            elements += child.getElementsByTagName(tagName)
+        return TagCollection(elements)
+
     def getElementsByAttr(self, attrName, attrValue):
         '''
             getElementsByAttr - Search children of this tag for tags with an attribute name/value pair
